@@ -301,6 +301,22 @@ def job_section(j: dict) -> dict:
     return run_cmd(root, j["cmd"], pre, sorted(j["files"]))
 
 
+IGNORE_PROBE = "def area(w):\n    return w * 4711\n"
+
+
+def job_ignore(j: dict) -> dict:
+    """Every present carrier holds a top-level ignore list naming ITS OWN directory (gen1/ yaml, gen2/ json, gen3/ pyproject)."""
+    drive.preload()
+    root = mkroot(j)
+    files = {f"gen{i}/stub.py": IGNORE_PROBE for i in (1, 2, 3)}
+    files["keep.py"] = IGNORE_PROBE
+    drive.write_tree(root, files)
+    for car, vid in (("yaml", 1), ("json", 2), ("pyproject", 3)):
+        if j[car]:
+            write_carrier(root, car, {"ignore": [f"gen{vid}/"]})
+    return run_cmd(root, j["cmd"], [], ["."])
+
+
 def job_invalid(j: dict) -> dict:
     drive.preload()
     root = mkroot(j)
@@ -455,6 +471,23 @@ def run(chk) -> None:
             continue
         meta.append(({"kind": m[0], "section": m[1], "detail": list(m[2:])}, v))
 
+    # ---- (e) the top-level ignore list, per carrier combination ------------------------------------
+    gjobs = [{"cmd": cmd, "yaml": y, "json": js, "pyproject": pp}
+             for cmd in ("magic-numbers",) for y in (False, True) for js in (False, True) for pp in (False, True)]
+    for i, j in enumerate(gjobs):
+        j["root"] = str(scratch_root() / f"c05g-{i}" / "proj")
+    gres = pool.run_jobs(job_ignore, gjobs, nproc=NCPU, timeout=300)
+    for j, r_ in zip(gjobs, gres):
+        if not r_.ok:
+            raise MachineryError(f"C05 ignore-list job failed: {r_.error}")
+        v = r_.value
+        seen = {json.loads(k)[1] for k in (v["bag"] or [])}
+        silent = [i for i in (1, 2, 3) if f"gen{i}/stub.py" not in seen]
+        observed = (0 if not silent else silent[0] if len(silent) == 1 else -1) if "keep.py" in seen else -1
+        records.append({"kind": "ignore_list", "distinct": True, "monotone": True, "effective": 0, "observed": observed,
+                        "exit": v["exit"], "n": len(v["bag"] or []), "base": 0})
+        meta.append(({"kind": "ignore_list", "carriers": {c: j[c] for c in ("yaml", "json", "pyproject")}, "observed": observed}, v))
+
     # ---- (d) invalid values and unparsable files -------------------------------------------------
     ijobs, imeta = [], []
     for opt, o in OPTIONS.items():
@@ -486,6 +519,8 @@ def run(chk) -> None:
         c = case.get("case") if case["kind"] == "case" else None
         for f in ("yaml", "json", "pyproject", "cli", "lang", "cliDefault", "langOther"):
             rec[f] = bool(c.get(f, False)) if c else False
+        if case["kind"] == "ignore_list":
+            rec.update({k: bool(v) for k, v in case["carriers"].items()})
         rec["companion"] = c.get("companion", "none") if c else "none"
         rec["dash"] = c["dash"] if c else "none"
         rec["spelling"] = c["spelling"] if c else "hyphen"
